@@ -120,6 +120,54 @@ var scaleSources = []scaleSource{
 		}
 		return pdf417.Encode("A", 0)
 	}},
+	// large sources (>= 100 modules in a dimension): explored on a sparse window around the
+	// multiples of their size, where size-dependent arithmetic shows
+	{"LARGE code128", func(cu bool) (barcode.Barcode, error) {
+		if cu {
+			return up(code128.EncodeWithColor("Large Code 128 symbol", customScheme))
+		}
+		return up(code128.Encode("Large Code 128 symbol"))
+	}},
+	{"LARGE codabar", func(cu bool) (barcode.Barcode, error) {
+		if cu {
+			return codabar.EncodeWithColor("A0123456789-$:/.+0123456789B", customScheme)
+		}
+		return codabar.Encode("A0123456789-$:/.+0123456789B")
+	}},
+	{"LARGE qr", func(cu bool) (barcode.Barcode, error) {
+		c := string(qrFill(2, qrCap(2, 1, 23)))
+		if cu {
+			return qr.EncodeWithColor(c, qr.M, qr.AlphaNumeric, customScheme)
+		}
+		return qr.Encode(c, qr.M, qr.AlphaNumeric)
+	}},
+	{"LARGE datamatrix", func(cu bool) (barcode.Barcode, error) {
+		c := string(dmByCodewords(1000)[0])
+		if cu {
+			return datamatrix.EncodeWithColor(c, customScheme)
+		}
+		return datamatrix.Encode(c)
+	}},
+	{"LARGE pdf417", func(cu bool) (barcode.Barcode, error) {
+		c := Filler("aB1;& ,z\nQ:x", 700)
+		if cu {
+			return pdf417.EncodeWithColor(c, 3, customScheme)
+		}
+		return pdf417.Encode(c, 3)
+	}},
+}
+
+// sparse returns the sizes within +-2 of n, 2n and 3n (and 1).
+func sparse(n int) []int {
+	out := []int{1}
+	for k := 1; k <= 3; k++ {
+		for d := -2; d <= 2; d++ {
+			if v := k*n + d; v > 1 {
+				out = append(out, v)
+			}
+		}
+	}
+	return out
 }
 
 // scaleModel is the arithmetic reference image.
@@ -329,6 +377,23 @@ func c09Body(c *core.Ctx) {
 			W, H := bc.Bounds().Dx(), bc.Bounds().Dy()
 			oneD := bc.Metadata().Dimensions == 1
 			P := []int{si, scheme}
+			if strings.HasPrefix(src.name, "LARGE") {
+				hsL := []int{1, 4}
+				if !oneD {
+					hsL = sparse(H)
+				}
+				for _, w := range sparse(W) {
+					for _, h := range hsL {
+						for f := 0; f < 3; f++ {
+							if !T && f == 2 {
+								continue
+							}
+							Run(c, &core.Case{Fam: "scale", P: P, Ops: []string{sop(w, h, f)}})
+						}
+					}
+				}
+				continue
+			}
 			// depth 1: the full window
 			hs := []int{}
 			if oneD {
@@ -383,6 +448,7 @@ func c09Body(c *core.Ctx) {
 		}
 	}
 	c.R.Bound("sources", fmt.Sprintf("%d smallest symbols (one per encoder entry family) x {default scheme, RGBA scheme via WithColor}", len(scaleSources)))
+	c.R.Bound("large_sources", "5 symbols with >= 100 modules in a dimension (Code 128 255, Codabar, QR v23 109x109, DataMatrix 120x120, PDF417): sizes within +-2 of 1x, 2x, 3x in each dimension")
 	c.R.Bound("depth1", "full window w in 1..3W+2, h in 1..3H+2 (1D: h in {1,2,3,7}) x fills {default, opaque RGBA, translucent NRGBA}")
 	c.R.Bound("depth2", "from 25 (1D: 10) depth-1 states around factors 1 and 2, sizes {n-1,n,n+1,2n-1,2n,2n+1,3n+2} relative to the current size, 3 fill combinations")
 	if T {
